@@ -7,6 +7,8 @@ import Spydr.Eblif.Props.C18FullParse
 import Spydr.Eblif.Props.C18GenDefs
 import Spydr.Eblif.Props.C18Mirror
 import Spydr.Eblif.Props.C18Full
+import Spydr.Eblif.Props.C18Any
+import Spydr.Eblif.FragCheck
 #print axioms Spydr.Eblif.lexB_printB
 #print axioms Spydr.Eblif.lexB_continuation
 #print axioms Spydr.Eblif.parse_comment_line
@@ -64,3 +66,6 @@ import Spydr.Eblif.Props.C18Full
 #print axioms Spydr.Eblif.header_inout
 #print axioms Spydr.Eblif.conn_alias_closed_form
 #print axioms Spydr.Eblif.written_joins_are_net
+#print axioms Spydr.Eblif.eblif_roundtrip_any_order
+#print axioms Spydr.Eblif.fragFull_in
+#print axioms Spydr.Eblif.fragAny_in
